@@ -1,13 +1,27 @@
 #!/venv/bin/python -SE
-import os, sys, json, socket
+"""`jade` / `jade-internal` on PATH of a simulation: hand the invocation to the fork server
+(VSIM_ZSOCK) or, without one, exec a fresh interpreter running the real click entry point."""
+import json
+import os
+import socket
+import sys
+
 prog = os.path.basename(sys.argv[0])
 z = os.environ.get("VSIM_ZSOCK")
 if not z:
     mod = "jade.cli.jade" if prog == "jade" else "jade.cli.jade_internal"
-    os.execv("/venv/bin/python", ["/venv/bin/python", "-c", f"import sys; sys.argv[0]={prog!r}; from {mod} import cli; cli()"] + sys.argv[1:])
+    code = f"import sys; sys.argv[0]={prog!r}; from {mod} import cli; cli()"
+    os.execv("/venv/bin/python", ["/venv/bin/python", "-c", code] + sys.argv[1:])
 s = socket.socket(socket.AF_UNIX, socket.SOCK_STREAM)
 s.connect(z)
-req = {"prog": prog, "args": sys.argv[1:], "env": dict(os.environ), "cwd": os.getcwd(), "lppid": os.getppid(), "shim_pid": os.getpid()}
+req = {
+    "prog": prog,
+    "args": sys.argv[1:],
+    "env": dict(os.environ),
+    "cwd": os.getcwd(),
+    "lppid": os.getppid(),
+    "shim_pid": os.getpid(),
+}
 socket.send_fds(s, [json.dumps(req).encode()], [0, 1, 2])
 data = s.recv(4096)
 if not data:
